@@ -23,17 +23,17 @@ reference, an exception escaping an input update -/
 def Benign (o : Outcome Val Err) : Prop :=
   o ≠ .fuel ∧ o ≠ .bad ∧ ∀ calls e, o ≠ .set calls (some e)
 
-/-- the worlds reachable by programs that never hand a where-rooted expression to a consumer -/
+/-- the worlds reachable by programs that satisfy (H1) `Admissible`, (H2) `EqOK` and (H3) `Benign` at every step -/
 inductive Reach (S : Sem Val Err Op) (fuel : Nat) : World Val Err Op → Prop where
   | init : Reach S fuel (World.empty S)
   | step {w w' : World Val Err Op} {s : Stmt Val Op} {o : Outcome Val Err} :
-      Reach S fuel w → Admissible w s → step S fuel w s = (o, w') → Benign o → Reach S fuel w'
+      Reach S fuel w → Admissible w s → EqOK S w s → step S fuel w s = (o, w') → Benign o → Reach S fuel w'
 
-theorem Reach.good {S : Sem Val Err Op} (hEq : ∀ a b, S.isEqual a b = true → a = b) {fuel : Nat}
+theorem Reach.good {S : Sem Val Err Op} {fuel : Nat}
     {w : World Val Err Op} (h : Reach S fuel w) : Good S w := by
   induction h with
   | init => exact good_empty S
-  | step _ hadm hstep hb ih => exact good_step hEq ih hadm hstep hb.1 hb.2.1 hb.2.2
+  | step _ hadm heq hstep hb ih => exact good_step ih hadm heq hstep hb.1 hb.2.1 hb.2.2
 
 /-! ### programs: the vocabulary of the property theorems -/
 
@@ -48,10 +48,10 @@ def exec (S : Sem Val Err Op) (fuel : Nat) : World Val Err Op → List (Stmt Val
   | w, [] => w
   | w, s :: ss => exec S fuel (step S fuel w s).2 ss
 
-/-- hypotheses (H1) and (H3) along a program -/
+/-- hypotheses (H1), (H2) and (H3) along a program -/
 def AdmProg (S : Sem Val Err Op) (fuel : Nat) : World Val Err Op → List (Stmt Val Op) → Prop
   | _, [] => True
-  | w, s :: ss => Admissible w s ∧ Benign (step S fuel w s).1 ∧ AdmProg S fuel (step S fuel w s).2 ss
+  | w, s :: ss => Admissible w s ∧ EqOK S w s ∧ Benign (step S fuel w s).1 ∧ AdmProg S fuel (step S fuel w s).2 ss
 
 def Outcome.isInfra : Outcome Val Err → Bool
   | .fuel => true
@@ -66,7 +66,7 @@ def NoInfra (S : Sem Val Err Op) (fuel : Nat) : World Val Err Op → List (Stmt 
 theorem reach_exec {S : Sem Val Err Op} {fuel : Nat} : ∀ (prog : List (Stmt Val Op)) {w : World Val Err Op},
     Reach S fuel w → AdmProg S fuel w prog → Reach S fuel (exec S fuel w prog)
   | [], _, h, _ => h
-  | s :: ss, w, h, ⟨a, b, c⟩ => reach_exec ss (Reach.step h a rfl b) c
+  | s :: ss, w, h, ⟨a, e, b, c⟩ => reach_exec ss (Reach.step h a e rfl b) c
 
 end
 
@@ -87,6 +87,7 @@ theorem argCleanB_sound {s : WStat (Option Int) Nat} {a : Arg (Option Int)} (h :
 def admB (w : World (Option Int) Unit Nat) : Stmt (Option Int) Nat → Bool
   | .op _ _ _ args => args.all (argCleanB w.stat)
   | .meth _ _ args => args.all (argCleanB w.stat)
+  | .meth2 _ _ args args2 => args.all (argCleanB w.stat) && args2.all (argCleanB w.stat)
   | .bind _ args => args.all (argCleanB w.stat)
   | .where_ c x y => argCleanB w.stat c && argCleanB w.stat x && argCleanB w.stat y
   | .watch n => match w.nodes[n]? with | some nd => !nd.toNStat.isW | none => true
@@ -98,6 +99,10 @@ theorem admB_sound {w : World (Option Int) Unit Nat} {s : Stmt (Option Int) Nat}
   cases s with
   | op n o r args => exact fun a ha => argCleanB_sound (List.all_eq_true.1 h a ha)
   | meth n o args => exact fun a ha => argCleanB_sound (List.all_eq_true.1 h a ha)
+  | meth2 n o args args2 =>
+    simp only [admB, Bool.and_eq_true] at h
+    exact ⟨fun a ha => argCleanB_sound (List.all_eq_true.1 h.1 a ha),
+           fun a ha => argCleanB_sound (List.all_eq_true.1 h.2 a ha)⟩
   | bind g args => exact fun a ha => argCleanB_sound (List.all_eq_true.1 h a ha)
   | where_ c x y =>
     simp only [admB, Bool.and_eq_true] at h
@@ -111,6 +116,7 @@ theorem admB_sound {w : World (Option Int) Unit Nat} {s : Stmt (Option Int) Nat}
     simp only [admB, hn] at h
     simpa using h
   | readref _ => trivial
+  | isin _ _ _ => trivial
   | lit _ => trivial
   | obj _ => trivial
   | rootp _ => trivial
@@ -128,10 +134,29 @@ theorem benignB_sound {o : Outcome (Option Int) Unit} (h : benignB o = true) : B
   | set calls e => cases e <;> simp_all [benignB, Benign]
   | _ => simp_all [benignB, Benign]
 
+def eqOKB (S : Sem (Option Int) Unit Nat) (w : World (Option Int) Unit Nat) : Stmt (Option Int) Nat → Bool
+  | .set p v => !S.isEqual (w.vals p) v || w.vals p == v
+  | _ => true
+
+theorem eqOKB_sound {S : Sem (Option Int) Unit Nat} {w : World (Option Int) Unit Nat} {s : Stmt (Option Int) Nat}
+    (h : eqOKB S w s = true) : EqOK S w s := by
+  cases s with
+  | set p v =>
+    intro he
+    simp only [eqOKB, he, Bool.not_true, Bool.false_or, beq_iff_eq] at h
+    exact h
+  | _ => trivial
+
+/-- (H1) and (H3) only -/
+def admProgB13 (S : Sem (Option Int) Unit Nat) (fuel : Nat) :
+    World (Option Int) Unit Nat → List (Stmt (Option Int) Nat) → Bool
+  | _, [] => true
+  | w, s :: ss => admB w s && benignB (step S fuel w s).1 && admProgB13 S fuel (step S fuel w s).2 ss
+
 def admProgB (S : Sem (Option Int) Unit Nat) (fuel : Nat) :
     World (Option Int) Unit Nat → List (Stmt (Option Int) Nat) → Bool
   | _, [] => true
-  | w, s :: ss => admB w s && benignB (step S fuel w s).1 && admProgB S fuel (step S fuel w s).2 ss
+  | w, s :: ss => admB w s && eqOKB S w s && benignB (step S fuel w s).1 && admProgB S fuel (step S fuel w s).2 ss
 
 theorem admProgB_sound (S : Sem (Option Int) Unit Nat) (fuel : Nat) :
     ∀ (prog : List (Stmt (Option Int) Nat)) (w : World (Option Int) Unit Nat),
@@ -139,6 +164,6 @@ theorem admProgB_sound (S : Sem (Option Int) Unit Nat) (fuel : Nat) :
   | [], _, _ => trivial
   | s :: ss, w, h => by
     simp only [admProgB, Bool.and_eq_true] at h
-    exact ⟨admB_sound h.1.1, benignB_sound h.1.2, admProgB_sound S fuel ss _ h.2⟩
+    exact ⟨admB_sound h.1.1.1, eqOKB_sound h.1.1.2, benignB_sound h.1.2, admProgB_sound S fuel ss _ h.2⟩
 
 end ParamVerif.Rx
